@@ -279,6 +279,125 @@ def fold_new_constants(modules):
     return total
 
 
+def _cm_decorated(fn):
+    return any((isinstance(d, ast.Attribute) and d.attr == "contextmanager") or (isinstance(d, ast.Name) and d.id == "contextmanager") for d in fn.decorator_list)
+
+
+def _plain_arg(e):
+    if isinstance(e, (ast.Constant, ast.Name)):
+        return True
+    if isinstance(e, ast.Attribute):
+        return _plain_arg(e.value)
+    if isinstance(e, (ast.List, ast.Tuple)):
+        return all(_plain_arg(x) for x in e.elts)
+    if isinstance(e, ast.BinOp):
+        return _plain_arg(e.left) and _plain_arg(e.right)
+    return False
+
+
+def split_context_managers(modules):
+    """Normal form for *extract into a context manager*: a generator-based context manager that the reference tree does not
+    have -- `@contextmanager def h(p): PRE; try: yield [v] finally: POST` (or without the try) -- is split into two plain
+    functions `h__enter(p)` (PRE; return v) and `h__exit(p)` (POST), and every `with X.h(args) [as t]: BODY` of the same
+    module becomes `[t =] X.h__enter(args); try: BODY finally: X.h__exit(args)`, which the helper expansion then folds into
+    the caller like any other new helper.  Conditions (else the `with` stays opaque): one yield, at statement level; POST uses
+    no local bound by PRE; the arguments are plain names / attributes / constants / displays of those (they are written
+    twice); without the try form BODY has no return / break / continue."""
+    base = baseline()
+    total = 0
+    for m in modules.values():
+        scopes = [(m.tree, m.name)] + [(c, "%s.%s" % (m.name, c.name)) for c in m.tree.body if isinstance(c, ast.ClassDef)]
+        split = {}
+        for scope, prefix in scopes:
+            for fn in list(scope.body):
+                if not (isinstance(fn, ast.FunctionDef) and _cm_decorated(fn)) or ("%s.%s" % (prefix, fn.name)) in base:
+                    continue
+                if fn.args.vararg or fn.args.kwarg or fn.args.posonlyargs or fn.args.kwonlyargs:
+                    continue
+                body = [st for st in fn.body if not (isinstance(st, ast.Expr) and isinstance(st.value, ast.Constant) and isinstance(st.value.value, str))]
+                yields = [n for n in ast.walk(fn) if isinstance(n, (ast.Yield, ast.YieldFrom))]
+                if len(yields) != 1 or isinstance(yields[0], ast.YieldFrom) or any(isinstance(n, ast.Return) for n in ast.walk(fn)):
+                    continue
+                pre, post, val, tryform = None, None, None, False
+                for i, st in enumerate(body):
+                    if isinstance(st, ast.Expr) and st.value is yields[0]:
+                        pre, post, val = body[:i], body[i + 1:], yields[0].value
+                        break
+                    if isinstance(st, ast.Try) and not st.handlers and not st.orelse and len(st.body) == 1 and isinstance(st.body[0], ast.Expr) and st.body[0].value is yields[0] and i == len(body) - 1:
+                        pre, post, val, tryform = body[:i], st.finalbody, yields[0].value, True
+                        break
+                if pre is None or any(isinstance(n, (ast.Yield, ast.YieldFrom)) for st in pre + post for n in ast.walk(st)):
+                    continue
+                pre_binds = set(n.id for st in pre for n in ast.walk(st) if isinstance(n, ast.Name) and isinstance(n.ctx, ast.Store))
+                if any(isinstance(n, ast.Name) and n.id in pre_binds for st in post for n in ast.walk(st)):
+                    continue
+                decos = [d for d in fn.decorator_list if not ((isinstance(d, ast.Attribute) and d.attr == "contextmanager") or (isinstance(d, ast.Name) and d.id == "contextmanager"))]
+                ret = ast.Return(value=copy.deepcopy(val) if val is not None else ast.Constant(value=None))
+                f_en = ast.FunctionDef(name=fn.name + "__enter", args=copy.deepcopy(fn.args), body=[copy.deepcopy(x) for x in pre] + [ret], decorator_list=copy.deepcopy(decos), returns=None, type_comment=None)
+                f_ex = ast.FunctionDef(name=fn.name + "__exit", args=copy.deepcopy(fn.args), body=[copy.deepcopy(x) for x in post] or [ast.Pass()], decorator_list=copy.deepcopy(decos), returns=None, type_comment=None)
+                for nf in (f_en, f_ex):
+                    if hasattr(nf, "type_params"):
+                        nf.type_params = []
+                    ast.copy_location(nf, fn)
+                    for n in ast.walk(nf):
+                        if not hasattr(n, "lineno"):
+                            ast.copy_location(n, fn)
+                    ast.fix_missing_locations(nf)
+                k = scope.body.index(fn)
+                scope.body[k + 1:k + 1] = [f_en, f_ex]
+                split[fn.name] = tryform
+        if not split:
+            continue
+
+        class _W(ast.NodeTransformer):
+            def visit_With(self, node):
+                self.generic_visit(node)
+                if len(node.items) != 1:
+                    return node
+                it = node.items[0]
+                c = it.context_expr
+                if not isinstance(c, ast.Call) or c.keywords and any(k.arg is None for k in c.keywords):
+                    return node
+                nm = c.func.attr if isinstance(c.func, ast.Attribute) else (c.func.id if isinstance(c.func, ast.Name) else None)
+                if nm not in split or not all(_plain_arg(a) for a in c.args) or not all(_plain_arg(k.value) for k in c.keywords):
+                    return node
+                if isinstance(c.func, ast.Attribute) and not _plain_arg(c.func.value):
+                    return node
+                tryform = split[nm]
+                if not tryform and any(isinstance(n, (ast.Return, ast.Break, ast.Continue)) for st in node.body for n in ast.walk(st)):
+                    return node
+
+                def call(suffix):
+                    cc = copy.deepcopy(c)
+                    if isinstance(cc.func, ast.Attribute):
+                        cc.func.attr = nm + suffix
+                    else:
+                        cc.func.id = nm + suffix
+                    return cc
+                enter = call("__enter")
+                first = ast.Assign(targets=[copy.deepcopy(it.optional_vars)], value=enter) if it.optional_vars is not None else ast.Expr(value=enter)
+                if it.optional_vars is not None:
+                    for n in ast.walk(first.targets[0]):
+                        if hasattr(n, "ctx"):
+                            n.ctx = ast.Store()
+                last = ast.Expr(value=call("__exit"))
+                if tryform:
+                    rest = [ast.Try(body=node.body, handlers=[], orelse=[], finalbody=[last])]
+                else:
+                    rest = node.body + [last]
+                out = [first] + rest
+                for o in out:
+                    ast.copy_location(o, node)
+                    ast.fix_missing_locations(o)
+                nonlocal_total[0] += 1
+                return out
+        nonlocal_total = [0]
+        m.tree = _W().visit(m.tree)
+        ast.fix_missing_locations(m.tree)
+        total += nonlocal_total[0]
+    return total
+
+
 def bind_unpassed_defaults(modules):
     """Normal form for *add a keyword parameter nobody passes*: a parameter that the reference tree's signature of the
     function does not have, with an immutable constant default, that no call in the package supplies (by keyword, or by
